@@ -181,6 +181,27 @@ def run(res, tier, seed, replay):
     vlib.proof_gate(res, "C18", THEOREMS)
     chunk = chunk_size()
     b = os.path.join(vlib.cargo_build("debug", hooks=True, bins=["pool_ops"]), "pool_ops")
+    # ---- ids around the limit of the 32-bit id types: the id of the index-th element is the index, or the conversion
+    # refuses; it never is the id of another element (Data/Arena.v: ids are the allocation indices, unbounded)
+    probe, _ = vlib.run_harness(b, ["--probe-ids"])
+    kinds = ["NameId", "StringId", "VersionSetId", "VersionSetUnionId", "SolvableId"]
+    n_probes = 0
+    for pr in (probe[0]["probe_ids"] if probe else []):
+        n_probes += 1
+        idx = int(pr["index"])
+        res.obligations += 1
+        if pr["id"] is None:
+            ok_ = idx > 0xFFFFFFFF          # refusing is right only beyond the id type
+        else:
+            ok_ = pr["id"] == idx
+        if ok_:
+            res.discharged += 1
+        else:
+            res.violation(f"id-wrap-{pr['kind']}-{pr['index']}", f"the pool's arena would hand out {kinds[pr['kind']]}({pr['id']}) for its element "
+                          f"number {idx}: " + ("the id of another element (ids wrap around at 2^32: different values get the same id and resolving "
+                          "the id returns the older value)" if pr["id"] is not None else "the conversion refuses an index the id type can represent"),
+                          {"kind": "probe_ids", "probe": pr, "how": "pool_ops --probe-ids (resolvo::verif::pool_id_for_index)"})
+    res.extra["id_limit_probes"] = n_probes
     os.makedirs(vlib.OUT, exist_ok=True)
     if replay:
         j = json.load(open(replay))
